@@ -135,7 +135,8 @@ def apply_closure_rule(body, rid, want, delim, rest, counts):
         raise Undecided(f"bad //@rule: {rid} closure")
     anchor, header = parts[0], parts[1]
     # the parameter may carry a type and the closure a return type: both are dropped, the header gives them
-    rx = re.compile("(?:" + anchor + r")\s*(move\s+)?\|\s*(\w+)\s*(?::[^|]*)?\|\s*(?:->\s*[^{]+?(?=\{))?", re.S)
+    # the parameter is a name or a tuple pattern `(a, b)`; a pattern is bound by a `let` in front of BODY
+    rx = re.compile("(?:" + anchor + r")\s*(move\s+)?\|\s*(\w+|\(\s*\w+(?:\s*,\s*\w+)*\s*\))\s*(?::[^|]*)?\|\s*(?:->\s*[^{]+?(?=\{))?", re.S)
     mask = rscan.code_mask(body)
     out, pos, n = [], 0, 0
     for m in rx.finditer(body):
@@ -162,7 +163,11 @@ def apply_closure_rule(body, rid, want, delim, rest, counts):
             inner = "{ " + inner + " }"
         closure_start = m.start() + len(re.match("(?:" + anchor + r")\s*", body[m.start():], re.S).group(0))
         out.append(body[pos:closure_start])
-        out.append((m.group(1) or "") + header.replace("\\n", "\n").replace("$x", m.group(2)) + " " + inner)
+        pname = m.group(2)
+        if pname.startswith("("):
+            inner = "{ let " + pname + " = p__; " + inner + " }"
+            pname = "p__"
+        out.append((m.group(1) or "") + header.replace("\\n", "\n").replace("$x", pname) + " " + inner)
         pos = i
         n += 1
     out.append(body[pos:])
